@@ -70,6 +70,10 @@ def string_stream(rng, n):
     out = ["", "class", "def", "_dict", "__class__", "a b", "a-b", "a_b", "a\tb", "class_", "None", "1abc", "日本", "a²", "$ref", "<", "foo bar",
            "fooBar", "foo_bar", "FOO", "string", "object", "list", "x" * 40, "__", "-", " ", "a  b", "a__b", "match", "_", "Ünï"]
     out += sorted(dir(object)) + ["__dict__", "__weakref__", "__module__", "__slots__"] + list(keyword.kwlist)
+    # the same names written with separators where the underscores are (they become reserved only after the mapping)
+    for r in sorted(dir(object)) + ["_dict", "__dict__", "__weakref__"]:
+        out += [r.replace("_", "-"), r.replace("_", " "), r.replace("__", "- ", 1), "-" + r.lstrip("_") if r.startswith("_") else " " + r]
+    out += ["-dict", " dict", "--init--", "--class--", "- dict -", "__eq--", "class-", "def ", "-class", "a - $"]
     for _ in range(n):
         out.append("".join(rng.choice(alphabet) for _ in range(rng.randint(1, 6))))
     return out
